@@ -31,6 +31,16 @@ SomeInterleaving(e) ==
   /\ {e.items[i][1] : i \in 1..Len(e.items)} = KeysOf(e.entries)
   /\ \A i \in 1..Len(e.items) : e.items[i][2] \in ValsFor(e.entries, e.items[i][1])
 
+\* extending a collection that already holds `pre`: keys of both; a key among the new items maps
+\* to one of the values supplied for it (insertion replaces), any other key keeps its old value
+ExtendOk(e) ==
+  /\ NoDupKeys(e.items)
+  /\ {e.items[i][1] : i \in 1..Len(e.items)} = KeysOf(e.entries) \cup KeysOf(e.pre)
+  /\ \A i \in 1..Len(e.items) :
+       LET k == e.items[i][1] IN
+       IF k \in KeysOf(e.entries) THEN e.items[i][2] \in ValsFor(e.entries, k)
+       ELSE e.items[i][2] = e.pre[Last(e.pre, k)][2]
+
 SetContents(e) ==
   /\ NoDupKeys(e.items)
   /\ {e.items[i][1] : i \in 1..Len(e.items)} = KeysOf(e.entries)
@@ -51,9 +61,11 @@ BulkOk(e) ==
             /\ e.outcome = "ok" /\ e.eq = 1 /\ e.items = e.orig
             /\ IF e.how = "roundtrip_map" THEN SomeInterleaving(e) ELSE SetContents(e)
        [] e.how \in {"par_extend_map", "from_par_iter_map", "par_extend_mapref"} ->
-            e.outcome = "ok" /\ SomeInterleaving(e) /\ e.len = Cardinality(KeysOf(e.entries))
+            e.outcome = "ok" /\ ExtendOk(e) /\ e.len = Cardinality(KeysOf(e.entries) \cup KeysOf(e.pre))
        [] e.how \in {"par_extend_set", "from_par_iter_set"} ->
-            e.outcome = "ok" /\ SetContents(e) /\ e.len = Cardinality(KeysOf(e.entries))
+            /\ e.outcome = "ok" /\ NoDupKeys(e.items)
+            /\ {e.items[i][1] : i \in 1..Len(e.items)} = KeysOf(e.entries) \cup KeysOf(e.pre)
+            /\ e.len = Cardinality(KeysOf(e.entries) \cup KeysOf(e.pre))
        [] e.how \in {"collect_map", "extend_map"} ->
             /\ e.outcome = "ok" /\ Len(e.items) = Cardinality(KeysOf(e.entries))
             /\ SeqToSet(e.items) = FoldMap(e.entries) /\ e.len = Len(e.items)
